@@ -195,4 +195,65 @@ theorem successive_requests_stable [BlockOne β] [LawfulOne β]
 
 end
 
+/-! ### Non-vacuity examples and witnesses of the defects of the pinned tree -/
+
+section Examples
+
+theorem diamond_wf : ∀ d ∈ diamond, d.jac.WF := by
+  intro d hd
+  simp only [diamond, List.mem_cons, List.not_mem_nil, or_false] at hd
+  rcases hd with rfl | rfl | rfl <;> exact mkDisc_wf _ _ _ (by decide)
+
+theorem deadWrite_wf : ∀ d ∈ deadWrite, d.jac.WF := by
+  intro d hd
+  simp only [deadWrite, List.mem_cons, List.not_mem_nil, or_false] at hd
+  rcases hd with rfl | rfl | rfl <;> exact mkDisc_wf _ _ _ (by decide)
+
+/-- The hypotheses of `reverse_eq_forward_unit` are satisfiable by a diamond
+    (`y = 2x, z = 3x, o = 5y + 7z`) and the block is the textbook value `5·2 + 7·3`. -/
+example : (fwd diamond (seedAt 0) 3 : ConstBlocks (Fin 4) Int 3 0).toS = 31 := by
+  rw [← reverse_eq_forward_unit [0, 1, 2, 3] (by decide) (by decide) diamond diamond_wf 3
+    ⟨mkDisc [1, 2] [3] [(3, 1, 5), (3, 2, 7)], by simp [diamond], by simp [mkDisc]⟩ 0]
+  decide
+
+/-- `independent_zero` is not vacuous: in the diamond `z` does not depend on `y`… -/
+example : ¬ dependsOn diamond (fun v => v = 1) 2 := by
+  simp [dependsOn, reachStep, diamond, mkDisc, DJac.present]
+
+/-- …and `o` depends on `x`. -/
+example : dependsOn diamond (fun v => v = 0) 3 := by
+  simp [dependsOn, reachStep, diamond, mkDisc, DJac.present]
+
+/-- **Witness of the defect of the pinned tree (MDOChain).**  On the chain
+    `A: y = 2x; B: y = 5x; C: o = 7y` (a variable computed twice, acyclic name graph, valid order)
+    the pinned `reverse_chain_rule` (`chainJacOld`) returns `7·(2+5) = 49`… -/
+theorem pinned_chain_wrong_on_variable_written_twice :
+    (chainJacOld (β := ConstBlocks (Fin 3) Int) [0, 1, 2] (fun _ _ => (0 : Int)) deadWrite 2 0).toS
+      = 49 := by decide
+
+/-- …whereas the total derivative of the function the chain computes (`o = 35 x`), returned by
+    the repaired code, is 35. -/
+theorem repaired_chain_on_variable_written_twice :
+    (fwd deadWrite (seedAt 0) 2 : ConstBlocks (Fin 3) Int 2 0).toS = 35 := by
+  rw [← reverse_eq_forward_unit [0, 1, 2] (by decide) (by decide) deadWrite deadWrite_wf 2
+    ⟨mkDisc [1] [2] [(2, 1, 7)], by simp [deadWrite], by simp [mkDisc]⟩ 0]
+  decide
+
+/-- **Witness of the defect of the pinned tree (MDOParallelChain).**  `A: s = 2x + 3z`, `B: s = 5x`
+    in parallel: the value of `s` is B's, the pinned merge (`dict.update`) kept `∂s/∂z = 3`. -/
+theorem pinned_parallel_wrong_on_output_written_twice :
+    (parJacOld (β := ConstBlocks (Fin 3) Int) (fun _ _ => (0 : Int)) parDup 2 1).toS = 3
+    ∧ (parJac (β := ConstBlocks (Fin 3) Int) (fun _ _ => (0 : Int)) parDup 2 1).toS = 0 := by
+  decide
+
+/-- `additive_sum` on the same two disciplines: the blocks are added. -/
+example : (addJac (β := ConstBlocks (Fin 3) Int) (fun _ _ => (0 : Int)) [2] parDup 2 0).toS = 7
+    ∧ (addJac (β := ConstBlocks (Fin 3) Int) (fun _ _ => (0 : Int)) [2] parDup 2 1).toS = 3 := by
+  decide
+
+/-- The matrix instance: blocks of shape `|o| × |i|` over `ℚ`-like semirings satisfy the laws. -/
+example (sz : Fin 3 → ℕ) : LawfulBlocks (MatBlocks sz Int) := inferInstance
+
+end Examples
+
 end GV.C09
